@@ -84,7 +84,10 @@ static int run_config(vp_rng_t* r, int tscf, int udp, int fd, int count, int pac
             case 2: id = (serial & 0x7ff) | CAN_EFF_FLAG; break;                          /* 29-bit flagged id <= 0x7FF */
             case 3: id = (serial & 0x7ff) | CAN_RTR_FLAG; break;
             case 4: id = ((serial * 40503u) & 0x1fffffff) | 0x800 | CAN_EFF_FLAG | CAN_RTR_FLAG; break;
-            case 5: id = 0x7ff; break;
+            case 5: { /* the boundary between the identifier ranges, with and without the extended-frame flag */
+                      static const uint32_t edge[8] = { 0x7ff, 0x7ff | CAN_EFF_FLAG, 0x7fe | CAN_EFF_FLAG, 0x800 | CAN_EFF_FLAG, 0 | CAN_EFF_FLAG,
+                                                        0x7ff | CAN_EFF_FLAG | CAN_RTR_FLAG, 0x800 | CAN_EFF_FLAG | CAN_RTR_FLAG, 0x7ff | CAN_RTR_FLAG };
+                      id = edge[(serial >> 3) & 7]; } break;
             case 6: id = 0x1fffffff | CAN_EFF_FLAG; break;
             default: id = (uint32_t)vp_rng_next(r) & 0x7ff; break;
             }
